@@ -217,6 +217,8 @@ pub struct Sim {
     /// (proactive_filling_reserve, proactive_filling_max) of the scheduler
     pub prefill: (u32, u32),
     /// exhaustive exploration: remaining (worker losses, cancels, extra workers) on this path
+    /// connected workers that were started inside an allocation (they carry the manager info)
+    pub alloc_workers: BTreeSet<u32>,
     pub x_budget: (u32, u32, u32),
     /// time request (s) of the multi-node tasks the exhaustive exploration submits (0 = none)
     pub x_mn_min_time: u64,
@@ -450,6 +452,7 @@ impl Sim {
             low_submit: vec![],
             task_rqv: Default::default(),
             task_tl: Default::default(),
+            alloc_workers: Default::default(),
             x_budget: (1, 1, 1),
             x_mn_min_time: 0,
             x_submit: 0,
@@ -1181,6 +1184,11 @@ impl Sim {
         let limit = if self.profile == 4 { *self.rng.pick(&[None, Some(60_000u64), Some(1_800_000), Some(1_800_000)]) } else { None };
         let mut cfg = worker_config(next, 1, group, limit);
         cfg.resources = desc;
+        if self.rng.chance(1, 3) {
+            // a worker started inside an allocation of the batch system: it carries the manager info
+            let (k, v) = hyperqueue::verif::autoalloc::manager_extra(&format!("a{}", next.as_num() % 3));
+            cfg.extra.insert(k, v);
+        }
         self.do_add_worker(cfg);
     }
 
@@ -1193,9 +1201,22 @@ impl Sim {
         }
         self.act_line(format!("add_worker {}", serde_json::to_string(&cfg).unwrap()));
         self.log.push(format!("add_worker group={group}"));
+        let managed = cfg.extra.contains_key(&hyperqueue::verif::autoalloc::manager_extra("x").0);
         self.guarded(|s| {
             s.world.add_worker(cfg);
         });
+        // C18: the job layer tells the autoalloc service about every worker of an allocation (and about no other)
+        {
+            use hyperqueue::verif::autoalloc::VerifWorkerNotice;
+            let notices = self.world.alloc_rx.borrow_mut().drain();
+            let told = notices.iter().any(|n| matches!(n, VerifWorkerNotice::Connected { worker, .. } if *worker == next.as_num()));
+            if managed {
+                self.alloc_workers.insert(next.as_num());
+            }
+            if managed != told && self.panicked.is_none() {
+                self.job.lines.push(format!("mon FAIL c18.notify connect-notice worker {} (started inside an allocation: {managed}) connected, the autoalloc service was told: {told} ({notices:?})", next.as_num()));
+            }
+        }
         let tot = self
             .world
             .server
@@ -1239,6 +1260,16 @@ impl Sim {
         let order = self.world.server.assigned_order(WorkerId::new(id));
         let op = crate::coreview::lost_op(id, reason, &order);
         self.world_action(vec![op], |s| s.world.lose_worker(id, reason));
+        // C18: every loss of a worker of an allocation reaches the autoalloc service, whatever the reason
+        {
+            use hyperqueue::verif::autoalloc::VerifWorkerNotice;
+            let notices = self.world.alloc_rx.borrow_mut().drain();
+            let told = notices.iter().any(|n| matches!(n, VerifWorkerNotice::Lost { worker, reason: r, .. } if *worker == id && *r == reason));
+            let managed = self.alloc_workers.remove(&id);
+            if managed != told && self.panicked.is_none() {
+                self.job.lines.push(format!("mon FAIL c18.notify loss-notice worker {id} (started inside an allocation: {managed}) was lost ({}), the autoalloc service was told: {told} ({notices:?})", reason_name(reason)));
+            }
+        }
     }
 
     /// time passes on a worker that the server does not see (message delay / clock skew): the worker's remaining life
